@@ -19,7 +19,8 @@ RULE = ('case = many-valued context (1-3 columns of the four shipped structures,
         'x operation: closures of all non-empty object subsets (intention_i + extension_i), extension_i with a '
         'sub-dictionary of descriptions and a base set, by-name extension/intention, binarize, '
         'ConceptLattice.from_context with n_projections_to_binarize in {0, 1000}, close_by_one, '
-        'close_by_one_objectwise, PatternConcept.from_objects (all four views), describe_pattern; half of the '
+        'close_by_one_objectwise, PatternConcept.from_objects (all four views), describe_pattern, the two paths compared '
+        'through the library itself (lattice ==, concept `in` lattice, set / dict of the concepts of both paths); half of the '
         'multi-column contexts have pattern_types in an order different from attribute_names; a third of the contexts run with the numpy switch fcapy.LIB_INSTALLED off (pure-python branches; no '
         'IntervalNumpyPS column there), a third mutate in place the table / column lists handed to MVContext or the '
         'data setter before querying (input aliasing), interval cells and descriptions may be half-bounded or '
@@ -250,6 +251,18 @@ def run_impl(case):
                 for ch in chs:
                     cov.append([cs[ch][0], cs[i][0]])
             return {'concepts': cs, 'covers': cov}
+        if op == 10:
+            L1 = ConceptLattice.from_context(K, n_projections_to_binarize=1000)
+            L0 = ConceptLattice.from_context(K, n_projections_to_binarize=0)
+            c1, c0 = list(L1), list(L0)
+            g1 = list(cca.close_by_one(K, n_projections_to_binarize=1000))
+            g0 = list(cca.close_by_one_objectwise(K))
+            dd = {c: 1 for c in c1}
+            dd.update({c: 0 for c in c0})
+            flags = [L1 == L0, L0 == L1, all(c in L0 for c in c1), all(c in L1 for c in c0),
+                     all(any(c == e for e in c0) for c in c1), all(any(c == e for e in c1) for c in c0)]
+            return {'flags': [bool(canon(x)) for x in flags], 'union': len(set(c1) | set(c0)), 'dict': len(dd),
+                    'gen_union': len(set(g1) | set(g0)), 'n1': len(c1), 'n0': len(c0)}
         if op == 8:
             from fcapy.lattice.pattern_concept import PatternConcept
             c = PatternConcept.from_objects(list(case['subsets'][0]), K, is_extent=(case['thr'] == 1))
@@ -324,6 +337,9 @@ def impl_term(case, out):
         if not (idx_ok(v['ext_i']) and idx_ok(v['ext'])):
             return '(OErr 12)'
         return '(OViews %s %s %s %s)' % (coq(v['ext_i']), coq(v['ext']), descs_term(case, v['int_i']), named)
+    if op == 10:
+        return '(OAgree %s %d %d %d %d %d)' % (coq([bool(x) for x in v['flags']]), v['union'], v['dict'],
+                                              v['gen_union'], v['n1'], v['n0'])
     if op == 4:
         return '(OBin %s %d %s %d)' % (coq(v['table']), v['nbin'], coq(v['onames']), v['n_attr_names'])
     if op == 5:
@@ -438,7 +454,7 @@ def cases_for_context(rng, ctx, cols, ops=None, origin='random'):
         c.update({'op': op, 'subsets': [], 'ds': [], 'base': None, 'thr': 0, 'origin': origin})
         c.update(kw)
         return c
-    ops = ops or [0, 1, 1, 2, 3, 4, 5, 5, 6, 6, 7, 8, 8, 9]
+    ops = ops or [0, 1, 1, 2, 3, 4, 5, 5, 6, 6, 7, 8, 8, 9, 10]
     for op in ops:
         if op == 0:
             out.append(mk(0, subsets=all_subsets(rng, n)))
@@ -487,6 +503,8 @@ def cases_for_context(rng, ctx, cols, ops=None, origin='random'):
             pass
         elif op == 7:
             out.append(mk(7))
+        elif op == 10:
+            out.append(mk(10))
     if 5 in ops:
         out.append(mk(5, thr=0))
         out.append(mk(5, thr=1000))
@@ -544,7 +562,7 @@ def history_cases(rng, max_rows):
             'requery_twice': rng.random() < 0.2}
     if rng.random() < 0.5 and 'binarize' not in hist['pre_ops']:
         hist['pre_ops'].insert(0, 'binarize')
-    out = cases_for_context(rng, ctx, after, ops=[0, 1, 3, 4, 5, 6, 7, 8], origin='history')
+    out = cases_for_context(rng, ctx, after, ops=[0, 1, 3, 4, 5, 6, 7, 8, 10], origin='history')
     for c in out:
         c['history'] = hist
     return out
@@ -573,13 +591,13 @@ def generate(rng, tier):
     ex = []
     for n, cols in exhaustive_contexts():
         ctx = base_ctx(rng, n, cols)
-        ex += cases_for_context(rng, ctx, cols, ops=[0, 4, 5, 6, 7, 8], origin='exhaustive')
+        ex += cases_for_context(rng, ctx, cols, ops=[0, 4, 5, 6, 7, 8, 10], origin='exhaustive')
     if tier == 'thorough':
         cases += ex
         n_ctx, n_hist, rows = 2400, 700, 9
     else:
-        cases += rng.sample(ex, 350)
-        n_ctx, n_hist, rows = 220, 70, 6
+        cases += rng.sample(ex, 300)
+        n_ctx, n_hist, rows = 190, 60, 6
     for _ in range(n_ctx):
         ctx, cols = random_context(rng, rows)
         cases += cases_for_context(rng, ctx, cols)
